@@ -49,8 +49,8 @@ type vesStep struct {
 		Cur uint64 `json:"cur"`
 	} `json:"o"`
 	Res struct {
-		D       int  `json:"d"`
-		C       int  `json:"c"`
+		D       int   `json:"d"`
+		C       int   `json:"c"`
 		Skipped bool  `json:"skipped"`
 		Gd      []int `json:"gd"`
 		Gc      []int `json:"gc"`
